@@ -191,6 +191,32 @@ def run(ck):
     done_direct, done_via_helper = lib.completion_callback_pred(prog, CONN)
     summ15 = lib.Summaries(prog)
     HANDLERS = {CONN + n_ for n_ in ("handleResponsePacket", "handleError", "handleTimeout", "close", "connect")}
+
+    # ---------------- R14: the finished request lets go of the timer before the connection is handed on ----------------
+    ck.rule("C15-R14", "C ordering (including implicit destructors)",
+            "onDone hands the connection -- and with it the connection's pooled time-out timer -- to the next queued request, which arms it "
+            "at once: everything the finished request does to its timer (disarm, releaseTimer, also from the destructor of the request "
+            "entry when that goes out of scope) happens before the completion callback is invoked, never after it", 3)
+    TIMER_TOUCH = ("Pistache::TimerPool::Entry::disarm", "Pistache::TimerPool::releaseTimer", "Pistache::TimerPool::Entry::arm", "Pistache::TimerPool::Entry::armMs")
+    touches_timer = lambda ev: ev["k"] == "call" and strip_tmpl(ev.get("callee") or "") in TIMER_TOUCH
+    may_touch = summ15.lift_may(touches_timer, "touches-timer")
+    entry_dtors = [g_ for g_ in prog.funcs.values() if g_.blocks and g_.base.endswith("RequestEntry::~RequestEntry")]
+    dtor_touches = any(summ15.may(g_, touches_timer, "touches-timer") for g_ in entry_dtors)
+    for name in ("handleResponsePacket", "handleError", "handleTimeout"):
+        fn = lib.single(prog, CONN + name)
+        dones = [e for e in fn.events("call") if done_direct(e) or done_via_helper(e)]
+        ck.require(dones, "%s does not invoke the completion callback" % name)
+        late = []
+        for d_ in dones:
+            for x in cfg.events_after(fn, d_):
+                if x["k"] == "call" and not done_direct(x) and not done_via_helper(x) and may_touch(x) and not (x.get("callee") or "").startswith("std::function"):
+                    late.append((x, "%s at line %s" % ((x.get("callee") or "").rsplit("::", 2)[-1], x.get("l"))))
+                elif x["k"] == "dtor" and "RequestEntry" in (x.get("type") or "") and dtor_touches:
+                    late.append((x, "the destructor of `%s` (a request entry, whose destructor touches the timer) at line %s" % (x.get("var"), x.get("l"))))
+        ck.ob("C15-R14", "%s/timer-released-before-onDone" % name, not late, (late[0][0].loc if late else dones[0].loc), fn,
+              "nothing touches the timer after the completion callback" if not late else
+              "%s runs after onDone(): the next request has already armed the same timer, which is disarmed under it" % late[0][1])
+
     for name in ("handleResponsePacket", "handleError", "handleTimeout"):
         fn = lib.single(prog, CONN + name)
         # edges on which requestEntry is known to be set: `if (requestEntry)`, `requestEntry != nullptr`, or a predicate member of the
@@ -447,6 +473,31 @@ def run(ck):
         ck.ob("C15-R7", "processRequestQueue/claimed-connection-used-or-released", not lost, d_.loc, prq,
               "every non-null pick is performed, queued for performing, or released" if not lost else
               "the connection claimed at line %s goes out of scope (line %s) on a path that neither uses nor releases it" % (d_.get("l"), lost[0].get("l")))
+
+    # ... and in Client::doRequest a connection that was given a request (perform / asyncPerform / performImpl) is not released by
+    # doRequest itself afterwards: from then on it belongs to that request, and only its completion callback gives it back.  A release
+    # after the hand-over puts a connection with a request queued on it into the pool: the next user sends a second request on the
+    # same socket and overwrites requestEntry.  (A catch handler has no CFG predecessor here -- no exception edges -- so for a release
+    # inside one, "afterwards" is judged by source order: the try statement that the handler belongs to lies after the use.)
+    dr7 = lib.single(prog, CLIENT + "doRequest")
+    USE7 = (CONN + "perform", CONN + "asyncPerform", CONN + "performImpl")
+    uses7 = [e for e in dr7.events("call") if (e.get("callee") or "") in USE7]
+    ck.require(uses7, "Client::doRequest does not hand a request to the claimed connection")
+    rels7 = [e for e in dr7.events("call") if (e.get("callee") or "") == POOL + "releaseConnection"]
+    handler_blocks7 = set()
+    for hb in [b for b in dr7.blocks.values() if b.label and b.label.get("k") == "catch"]:
+        handler_blocks7 |= set(cfg.reachable_blocks(dr7, hb.id)) | {hb.id}
+    late7 = []
+    for r_ in rels7:
+        if r_.block in handler_blocks7 and not any(any(x is r_ for x in cfg.events_after(dr7, u_)) for u_ in uses7):
+            if any((u_.get("l") or 0) < (r_.get("l") or 0) for u_ in uses7):
+                late7.append(r_)
+        elif any(any(x is r_ for x in cfg.events_after(dr7, u_)) for u_ in uses7):
+            late7.append(r_)
+    ck.ob("C15-R7", "doRequest/used-connection-not-released-by-the-caller", not late7, (late7[0].loc if late7 else uses7[0].loc), dr7,
+          "after the hand-over only the completion callback releases the connection" if not late7 else
+          "releaseConnection at line %s gives back a connection that was already handed a request at line %s: the pool hands it to the next "
+          "request while the first is still queued on it" % (late7[0].get("l"), uses7[0].get("l")))
 
     # ---------------- R9: check-then-enqueue is followed by a re-check ----------------
     ck.rule("C15-R9", "C must-pass-through (lost wake-up)",
